@@ -5,7 +5,7 @@
 
   Vertex ids of the cell polyhedron: `0 … 11` = the vertex on cube edge `e`, `12 + i` = cube corner `i`.
 -/
-import PolyVerif.Lemmas.MarchTableFacts
+import PolyVerif.Lemmas.MarchBits
 
 namespace PolyVerif
 namespace C09
@@ -135,6 +135,13 @@ def cornerSets : List Nat → List Nat → List (List Nat)
   | [], L => [L]
   | e :: r, L => cornerSets r L ++ cornerSets r (e :: L)
 
+/-! ### fast closedness check: directed edges of the cell polyhedron as codes `i·20 + j` -/
+
+def revCode (c : Nat) : Nat := (c % 20) * 20 + c / 20
+def balancedCodes (L : List Nat) : Bool := L.all fun c => L.count c == L.count (revCode c)
+def polyEdgeCodes (bits : List Bool) : List Nat :=
+  (polyTris bits).flatMap fun t => [t.1 * 20 + t.2.1, t.2.1 * 20 + t.2.2, t.2.2 * 20 + t.1]
+
 namespace Tab
 
 set_option maxRecDepth 100000 in
@@ -144,40 +151,6 @@ theorem table_poly_wellformed : ∀ b0 b1 b2 b3 b4 b5 b6 b7 : Bool,
     (polyTris (bits8 b0 b1 b2 b3 b4 b5 b6 b7)).all (fun t =>
         t.1 != t.2.1 && t.1 != t.2.2 && t.2.1 != t.2.2 && t.1 < 20 && t.2.1 < 20 && t.2.2 < 20 &&
         [t.1, t.2.1, t.2.2].all fun i => decide (12 ≤ i) || (crossEdges (bits8 b0 b1 b2 b3 b4 b5 b6 b7)).contains i) = true := by
-  decide +kernel
-
-/-! `0 ≤ 6·volume` of the cell solid at EVERY corner of the parameter cube of every sign pattern (36 450 corners in all),
-    in four chunks by the first two bits -/
-set_option maxRecDepth 100000 in
-theorem table_cell_volume_corners_ff : ∀ b2 b3 b4 b5 b6 b7 : Bool,
-    (cornerSets (crossEdges (bits8 false false b2 b3 b4 b5 b6 b7)) []).all (fun M =>
-      decide (3 * (solidTris (bits8 false false b2 b3 b4 b5 b6 b7)).length ≤ volShift (solidTris (bits8 false false b2 b3 b4 b5 b6 b7)) M)) = true := by
-  decide +kernel
-
-set_option maxRecDepth 100000 in
-theorem table_cell_volume_corners_ft : ∀ b2 b3 b4 b5 b6 b7 : Bool,
-    (cornerSets (crossEdges (bits8 false true b2 b3 b4 b5 b6 b7)) []).all (fun M =>
-      decide (3 * (solidTris (bits8 false true b2 b3 b4 b5 b6 b7)).length ≤ volShift (solidTris (bits8 false true b2 b3 b4 b5 b6 b7)) M)) = true := by
-  decide +kernel
-
-set_option maxRecDepth 100000 in
-theorem table_cell_volume_corners_tf : ∀ b2 b3 b4 b5 b6 b7 : Bool,
-    (cornerSets (crossEdges (bits8 true false b2 b3 b4 b5 b6 b7)) []).all (fun M =>
-      decide (3 * (solidTris (bits8 true false b2 b3 b4 b5 b6 b7)).length ≤ volShift (solidTris (bits8 true false b2 b3 b4 b5 b6 b7)) M)) = true := by
-  decide +kernel
-
-set_option maxRecDepth 100000 in
-theorem table_cell_volume_corners_tt : ∀ b2 b3 b4 b5 b6 b7 : Bool,
-    (cornerSets (crossEdges (bits8 true true b2 b3 b4 b5 b6 b7)) []).all (fun M =>
-      decide (3 * (solidTris (bits8 true true b2 b3 b4 b5 b6 b7)).length ≤ volShift (solidTris (bits8 true true b2 b3 b4 b5 b6 b7)) M)) = true := by
-  decide +kernel
-
-set_option maxRecDepth 100000 in
-/-- … and `0 < 6·volume` at SOME corner of the parameter cube, unless no corner of the cell is inside -/
-theorem table_cell_volume_positive_corner : ∀ b0 b1 b2 b3 b4 b5 b6 b7 : Bool,
-    ((!b0 && !b1 && !b2 && !b3 && !b4 && !b5 && !b6 && !b7) ||
-     (cornerSets (crossEdges (bits8 b0 b1 b2 b3 b4 b5 b6 b7)) []).any (fun M =>
-      decide (3 * (solidTris (bits8 b0 b1 b2 b3 b4 b5 b6 b7)).length < volShift (solidTris (bits8 b0 b1 b2 b3 b4 b5 b6 b7)) M))) = true := by
   decide +kernel
 
 /-- the packed tables and the position codes are what they stand for -/
